@@ -12,6 +12,7 @@ import (
 	"io"
 	"math/rand"
 	"os"
+	"runtime"
 	"sort"
 	"sync"
 	"sync/atomic"
@@ -259,6 +260,24 @@ func vh16Run(ops [][]vh16Op, nconn, shared int, only int, keepLog bool) (replies
 			dir.Close()
 			atomic.AddInt64(&answered, 1)
 		}(c)
+	}
+	if only < 0 {
+		// Tflush traffic on every connection, naming tags that are (often) in flight: a flush waits for the
+		// request it names and must itself be answered (lost wake-ups show as requests never answered)
+		for ci := range env.clients {
+			wg.Add(1)
+			go func(ci int) {
+				defer wg.Done()
+				for k := 0; k < 24; k++ {
+					atomic.AddInt64(&issued, 1)
+					env.clients[ci].sendRecv(&tflush{OldTag: tag((k*7 + ci) % 12)}, &rflush{})
+					atomic.AddInt64(&answered, 1)
+					if k%3 == 0 {
+						runtime.Gosched()
+					}
+				}
+			}(ci)
+		}
 	}
 	done := make(chan struct{})
 	go func() { wg.Wait(); close(done) }()
@@ -623,5 +642,29 @@ func TestVerifC16Probes(t *testing.T) {
 		if ok {
 			env.stop(5 * time.Second)
 		}
+	}
+}
+
+// TestVerifC16Race: the workload alone (no isolation re-runs, short logs), meant to run under -race.
+func TestVerifC16Race(t *testing.T) {
+	out := vhOpen(t)
+	defer out.Close()
+	rng := vhRandSeed(vhSeed() + 77)
+	runs := 4
+	if os.Getenv("VERIF_C16_RUNS") != "" {
+		fmt.Sscan(os.Getenv("VERIF_C16_RUNS"), &runs)
+	}
+	for r := 0; r < runs; r++ {
+		nclients := []int{4, 8, 16, 32}[rng.Intn(4)]
+		nconn := 1 + rng.Intn(4)
+		ops := make([][]vh16Op, nclients)
+		for c := range ops {
+			ops[c] = vh16Gen(rng, 5+rng.Intn(4), r%2 == 1)
+		}
+		_, issued, answered, shutdown, _, err := vh16Run(ops, nconn, nclients/4, -1, false)
+		if err != nil {
+			t.Fatalf("run %d: %v", r, err)
+		}
+		out.Emit(vh16Obs{Kind: "answered", Run: r, Cfg: fmt.Sprintf("race clients=%d conns=%d", nclients, nconn), Issued: int(issued), Answered: int(answered), Shutdown: shutdown})
 	}
 }
